@@ -16,6 +16,9 @@ pub fn load(repo: &Path, rel: &str) -> Result<Src, String> {
     let text = std::fs::read_to_string(&p).map_err(|e| format!("{}: {}", p.display(), e))?;
     let mut file = syn::parse_file(&text).map_err(|e| format!("{}: parse error: {}", rel, e))?;
     strip_tests(&mut file.items);
+    if std::env::var("VERIF_NO_NORMALIZE").is_err() {
+        crate::normalize::normalize_file(&mut file);
+    }
     Ok(Src { rel: rel.to_string(), file, text })
 }
 
@@ -50,7 +53,45 @@ pub fn ts<T: ToTokens>(t: &T) -> String {
     t.to_token_stream().to_string()
 }
 
-/// Compact token string: tokens concatenated without separators; literal tokens (e.g. `' '`) keep their text.
+fn canon_char(c: char, quote: char) -> String {
+    match c {
+        '\n' => "\\n".into(),
+        '\r' => "\\r".into(),
+        '\t' => "\\t".into(),
+        '\\' => "\\\\".into(),
+        c if c == quote => format!("\\{}", c),
+        c if (c as u32) < 0x20 || c as u32 == 0x7f => format!("\\x{:02X}", c as u32),
+        c if (c as u32) < 0x7f => c.to_string(),
+        c if c.is_alphanumeric() => c.to_string(),
+        c => format!("\\u{{{:x}}}", c as u32),
+    }
+}
+
+/// Canonical text of a literal token: equal values get equal text (`'\x0C'` = `'\u{c}'`, `0x7f` = `127`, `"\u{22}"` = `"\""`),
+/// so that rules never depend on how a literal is spelled.
+pub fn canon_literal(text: &str) -> String {
+    let Ok(l) = syn::parse_str::<syn::Lit>(text) else { return text.to_string() };
+    match l {
+        syn::Lit::Char(c) => format!("'{}'", canon_char(c.value(), '\'')),
+        syn::Lit::Byte(b) => format!("b'{}'", canon_char(b.value() as char, '\'')),
+        syn::Lit::Str(st) => format!("\"{}\"", st.value().chars().map(|c| canon_char(c, '"')).collect::<String>()),
+        syn::Lit::Int(i) => match i.base10_parse::<u128>() {
+            Ok(v) => format!("{}{}", v, i.suffix()),
+            Err(_) => text.to_string(),
+        },
+        _ => text.to_string(),
+    }
+}
+
+fn tok_text(tt: &proc_macro2::TokenTree) -> String {
+    match tt {
+        proc_macro2::TokenTree::Literal(l) => canon_literal(&l.to_string()),
+        other => other.to_string(),
+    }
+}
+
+/// Compact token string: tokens concatenated without separators; literal tokens are rendered canonically
+/// (see `canon_literal`).
 pub fn tsc<T: ToTokens>(t: &T) -> String {
     fn go(ts: proc_macro2::TokenStream, out: &mut String) {
         for tt in ts {
@@ -66,7 +107,7 @@ pub fn tsc<T: ToTokens>(t: &T) -> String {
                     go(g.stream(), out);
                     out.push_str(c);
                 }
-                other => out.push_str(&other.to_string()),
+                other => out.push_str(&tok_text(&other)),
             }
         }
     }
@@ -80,6 +121,171 @@ pub fn tsc_no_attrs_local(l: &syn::Local) -> String {
     let mut c = l.clone();
     c.attrs.clear();
     tsc(&c)
+}
+
+/// `if let P = S { A } else { B }` or its normal form `match S { P => { A }, _ => { B } }`.
+pub struct IfLet<'a> {
+    pub pat: &'a syn::Pat,
+    pub scrut: &'a syn::Expr,
+    pub then_block: &'a syn::Block,
+    /// None when there is no else branch (or it is empty)
+    pub else_block: Option<&'a syn::Block>,
+}
+
+pub fn if_let_form(e: &syn::Expr) -> Option<IfLet<'_>> {
+    match e {
+        syn::Expr::If(i) => {
+            let syn::Expr::Let(l) = &*i.cond else { return None };
+            let else_block = match &i.else_branch {
+                Some((_, el)) => match &**el {
+                    syn::Expr::Block(b) if !b.block.stmts.is_empty() => Some(&b.block),
+                    syn::Expr::Block(_) => None,
+                    _ => return None,
+                },
+                None => None,
+            };
+            Some(IfLet { pat: &l.pat, scrut: &l.expr, then_block: &i.then_branch, else_block })
+        }
+        syn::Expr::Match(m) => {
+            if m.arms.len() != 2 || !matches!(m.arms[1].pat, syn::Pat::Wild(_)) || m.arms[0].guard.is_some() || matches!(m.arms[0].pat, syn::Pat::Wild(_)) {
+                return None;
+            }
+            let syn::Expr::Block(tb) = &*m.arms[0].body else { return None };
+            let else_block = match &*m.arms[1].body {
+                syn::Expr::Block(b) if !b.block.stmts.is_empty() => Some(&b.block),
+                syn::Expr::Block(_) => None,
+                _ => return None,
+            };
+            Some(IfLet { pat: &m.arms[0].pat, scrut: &m.expr, then_block: &tb.block, else_block })
+        }
+        _ => None,
+    }
+}
+
+/// `while let P = S { body }` or its normal form `loop { match S { P => { body }, _ => break } }`:
+/// (scrutinee text, pattern text, body statements).
+pub fn loop_form(e: &syn::Expr) -> Option<(String, String, Vec<&syn::Stmt>)> {
+    match e {
+        syn::Expr::While(w) => {
+            if let syn::Expr::Let(l) = &*w.cond {
+                Some((tsc(&l.expr), tsc(&l.pat), w.body.stmts.iter().collect()))
+            } else {
+                None
+            }
+        }
+        syn::Expr::Loop(l) => {
+            if l.body.stmts.len() != 1 {
+                return None;
+            }
+            let syn::Stmt::Expr(syn::Expr::Match(m), _) = &l.body.stmts[0] else { return None };
+            if m.arms.len() != 2 || !matches!(m.arms[1].pat, syn::Pat::Wild(_)) || tsc(unblock(&m.arms[1].body)) != "break" {
+                return None;
+            }
+            let body: Vec<&syn::Stmt> = match &*m.arms[0].body {
+                syn::Expr::Block(b) => b.block.stmts.iter().collect(),
+                _ => return None,
+            };
+            Some((tsc(&m.expr), tsc(&m.arms[0].pat), body))
+        }
+        _ => None,
+    }
+}
+
+/// One way out of a function body: the decisions taken (normal-form texts: `SCRUT~PAT` for a match arm, `COND` /
+/// `!COND` for an if, `for PAT in EXPR` / `loop` for being inside a loop body) and the value returned — the text of
+/// `Err(..)` / `Ok(..)` / another expression — no matter whether it leaves through `return`, `Err(..)?` or as the
+/// tail expression.
+#[derive(Debug, Clone)]
+pub struct Exit {
+    pub conds: Vec<String>,
+    pub result: String,
+}
+
+pub fn exits(block: &syn::Block) -> Vec<Exit> {
+    fn stmts(ss: &[syn::Stmt], conds: &Vec<String>, tail_is_result: bool, out: &mut Vec<Exit>) {
+        for (i, s) in ss.iter().enumerate() {
+            let last = i + 1 == ss.len();
+            match s {
+                syn::Stmt::Expr(e, semi) => expr(e, conds, last && semi.is_none() && tail_is_result, out),
+                syn::Stmt::Local(l) => {
+                    if let Some(init) = &l.init {
+                        expr(&init.expr, conds, false, out);
+                        if let Some((_, d)) = &init.diverge {
+                            let mut c = conds.clone();
+                            c.push(format!("!let {}={}", tsc(&l.pat), tsc(&init.expr)));
+                            expr(d, &c, false, out);
+                        }
+                    }
+                }
+                _ => {}
+            }
+        }
+    }
+    fn expr(e: &syn::Expr, conds: &Vec<String>, is_result: bool, out: &mut Vec<Exit>) {
+        match e {
+            syn::Expr::Return(r) => out.push(Exit { conds: conds.clone(), result: r.expr.as_ref().map(|x| tsc(x)).unwrap_or_default() }),
+            syn::Expr::Try(t) => {
+                // Err(..)? leaves with that error; other `?` propagate the callee's error
+                let inner = tsc(&t.expr);
+                if inner.starts_with("Err(") {
+                    out.push(Exit { conds: conds.clone(), result: inner });
+                } else {
+                    expr(&t.expr, conds, false, out);
+                }
+            }
+            syn::Expr::If(i) => {
+                let c = tsc(&i.cond);
+                let mut c1 = conds.clone();
+                c1.push(c.clone());
+                stmts(&i.then_branch.stmts, &c1, is_result, out);
+                let mut c2 = conds.clone();
+                c2.push(format!("!{}", c));
+                match &i.else_branch {
+                    Some((_, el)) => expr(el, &c2, is_result, out),
+                    None => {}
+                }
+            }
+            syn::Expr::Match(m) => {
+                let sc = tsc(&m.expr);
+                expr(&m.expr, conds, false, out);
+                for a in &m.arms {
+                    let mut c = conds.clone();
+                    c.push(format!("{}~{}", sc, tsc(&a.pat)));
+                    if let Some((_, g)) = &a.guard {
+                        c.push(tsc(g));
+                    }
+                    expr(&a.body, &c, is_result, out);
+                }
+            }
+            syn::Expr::Block(b) => stmts(&b.block.stmts, conds, is_result, out),
+            syn::Expr::ForLoop(f) => {
+                let mut c = conds.clone();
+                c.push(format!("for {} in {}", tsc(&f.pat), tsc(&f.expr)));
+                stmts(&f.body.stmts, &c, false, out);
+            }
+            syn::Expr::While(w) => {
+                let mut c = conds.clone();
+                c.push(format!("while {}", tsc(&w.cond)));
+                stmts(&w.body.stmts, &c, false, out);
+            }
+            syn::Expr::Loop(l) => {
+                let mut c = conds.clone();
+                c.push("loop".to_string());
+                stmts(&l.body.stmts, &c, false, out);
+            }
+            syn::Expr::Paren(p) => expr(&p.expr, conds, is_result, out),
+            other => {
+                if is_result {
+                    out.push(Exit { conds: conds.clone(), result: tsc(other) });
+                } else {
+                    // nested closures / calls are not exits of this function
+                }
+            }
+        }
+    }
+    let mut out = vec![];
+    stmts(&block.stmts, &vec![], true, &mut out);
+    out
 }
 
 pub fn line(span: Span) -> usize {
@@ -439,7 +645,7 @@ pub fn flat_tokens(ts: proc_macro2::TokenStream, out: &mut Vec<String>) {
                     out.push(c.to_string());
                 }
             }
-            other => out.push(other.to_string()),
+            other => out.push(tok_text(&other)),
         }
     }
 }
@@ -562,6 +768,12 @@ fn frag_tokens(frag: &str) -> Vec<String> {
         } else {
             out.push(c.to_string());
             i += 1;
+        }
+    }
+    for t in out.iter_mut() {
+        let f = t.chars().next().unwrap_or(' ');
+        if f == '\'' && t.len() > 1 || f == '"' || f.is_ascii_digit() || ((f == 'b' || f == 'r') && (t.contains('"') || t.contains('\''))) {
+            *t = canon_literal(t);
         }
     }
     out
